@@ -31,6 +31,13 @@ pub fn case(idx: u64, seed: u64, p: &Params, o: &mut CaseOut) {
     o.check(second == first, "distances-differ-on-second-call", || format!("first {:?} second {:?}", first.dist, second.dist));
     let cloned = cl.distances().clone();
     o.check(cloned == first, "distances-differ-on-a-clone", || format!("first {:?} clone {:?}", first.dist, cloned.dist));
+    {
+        let other = AdjacencyListWeighted::<isize>::empty(n);
+        let mut x = FloydWarshall::new(&other);
+        x.clone_from(&FloydWarshall::new(&d));
+        let via = x.distances().clone();
+        o.check(via == first, "distances-differ-after-clone_from", || format!("direct {:?} via clone_from {:?}", first.dist, via.dist));
+    }
     let dist = &first;
     o.eq("matrix-order", &dist.order, &n);
     let mut rows: Vec<Vec<isize>> = Vec::new();
